@@ -321,6 +321,24 @@ func (fr *Frame) atomicModel(site ssa.Instruction, op string, c *ssa.CallCommon,
 	}
 	vc.Assumptions["atomics are treated as sequentially consistent single steps; interference between a load and a later store is only covered where a rely/guarantee declaration says so"] = true
 	var typ types.Type = a.Typ
+	if a.Kind == "field" && vc.DB.Shared[strings.TrimPrefix(a.Var, "F!")] {
+		// interference: other goroutines may have changed the field since this
+		// goroutine last looked (rely = any value of the type)
+		nv := vc.fresh("interf", a.Sort)
+		vc.write(st, a, nv)
+		if g := fr.sharedInv(a, st, false); g != "" {
+			vc.assume(*reach, g)
+		}
+		if g := fr.sharedInv(a, st, true); g != "" {
+			vc.assume(*reach, g)
+		}
+		vc.Assumptions["shared field "+strings.TrimPrefix(a.Var, "F!")+": arbitrary interference is assumed before every atomic access (rely = true)"] = true
+	}
+	if typ != nil {
+		if _, isInt := basicRange(typ); isInt {
+			vc.assume(*reach, vc.rangeFact(vc.read(st, a), typ))
+		}
+	}
 	switch {
 	case strings.HasPrefix(op, "Load"):
 		v := vc.def("atomic.load", a.Sort, vc.read(st, a))
@@ -330,6 +348,7 @@ func (fr *Frame) atomicModel(site ssa.Instruction, op string, c *ssa.CallCommon,
 		return []string{v}, true
 	case strings.HasPrefix(op, "Store"):
 		vc.write(st, a, fr.val(c.Args[1]))
+		fr.sharedGuarantee(site, a, st, *reach)
 		return nil, true
 	case strings.HasPrefix(op, "Add"):
 		nv := fmt.Sprintf("(+ %s %s)", vc.read(st, a), fr.val(c.Args[1]))
@@ -338,11 +357,13 @@ func (fr *Frame) atomicModel(site ssa.Instruction, op string, c *ssa.CallCommon,
 		}
 		v := vc.def("atomic.add", "Int", nv)
 		vc.write(st, a, v)
+		fr.sharedGuarantee(site, a, st, *reach)
 		return []string{v}, true
 	case strings.HasPrefix(op, "CompareAndSwap"):
 		old, nw := fr.val(c.Args[1]), fr.val(c.Args[2])
 		ok := vc.def("cas.ok", "Bool", sEq(vc.read(st, a), old))
 		vc.write(st, a, sIte(ok, nw, vc.read(st, a)))
+		fr.sharedGuarantee(site, a, st, *reach)
 		return []string{ok}, true
 	case strings.HasPrefix(op, "Swap"):
 		old := vc.def("atomic.swap", a.Sort, vc.read(st, a))
@@ -350,4 +371,43 @@ func (fr *Frame) atomicModel(site ssa.Instruction, op string, c *ssa.CallCommon,
 		return []string{old}, true
 	}
 	return nil, false
+}
+
+// sharedInv evaluates the declared invariant of a shared field for the object at a.Ref.
+func (fr *Frame) sharedInv(a *Addr, st *State, relyOnly bool) string {
+	vc := fr.vc
+	si := vc.DB.SharedInv[strings.TrimPrefix(a.Var, "F!")]
+	if si == nil {
+		return ""
+	}
+	env := vc.newEnv(&FuncContract{Name: "shared " + si.Recv, Pkg: si.Pkg}, st, st)
+	T := env.resolveType("*" + si.Recv[strings.LastIndex(si.Recv, "/")+1:])
+	if T == nil {
+		T = env.resolveType("*" + si.Recv)
+	}
+	env.vars["self"] = cval{t: a.Ref, typ: T, sort: "Int"}
+	if relyOnly {
+		if si.Rely == nil {
+			return ""
+		}
+		vc.Assumptions["rely (unchecked) on "+strings.TrimPrefix(a.Var, "F!")+": "+si.RelySrc] = true
+		return env.evalBool(si.Rely)
+	}
+	if si.E == nil {
+		return ""
+	}
+	return env.evalBool(si.E)
+}
+
+func (fr *Frame) sharedGuarantee(site ssa.Instruction, a *Addr, st *State, reach string) {
+	vc := fr.vc
+	if a.Kind != "field" || !vc.DB.Shared[strings.TrimPrefix(a.Var, "F!")] {
+		return
+	}
+	g := fr.sharedInv(a, st, false)
+	if g == "" {
+		return
+	}
+	fr.callSeq["guar"]++
+	vc.oblige("guarantee", fmt.Sprintf("%s/%s/shared[%s]/guarantee#%d", vc.prop, vc.qname, strings.TrimPrefix(a.Var, "F!"), fr.callSeq["guar"]), vc.DB.SharedInv[strings.TrimPrefix(a.Var, "F!")].Src, reach, g, site.Pos(), true)
 }
